@@ -242,6 +242,30 @@ class Ref:
         return "Ref(f%s,%s,%r)" % (self.frame, self.local, self.proj)
 
 
+class Lazy:
+    """a struct whose fields are created on first access from the type annotation of the projecting place
+    (scalars become fresh solver variables, Vec<u8> an empty-or-given VecU8, other structs nested Lazy values)"""
+    __slots__ = ("ty", "fields", "name")
+
+    def __init__(self, ty, name, fields=None):
+        self.ty, self.name = ty, name
+        self.fields = dict(fields or {})
+
+    def __repr__(self):
+        return "Lazy(%s,%r)" % (self.ty, self.fields)
+
+
+class VecU8:
+    """Vec<u8> of concrete length with symbolic elements (immutable: operations build new values)"""
+    __slots__ = ("items",)
+
+    def __init__(self, items=()):
+        self.items = tuple(items)
+
+    def __repr__(self):
+        return "VecU8(%d)" % len(self.items)
+
+
 class Opaque:
     __slots__ = ("ty", "tag")
 
@@ -512,9 +536,26 @@ class Interp:
                 if p[1] not in pl:
                     pl[p[1]] = self.sym(p[2], "e%d.%s.%d" % (enum.uid, var, p[1]))
                 return pl[p[1]]
+            if isinstance(v, Lazy):
+                if p[1] not in v.fields:
+                    fty = (p[2] or "").strip()
+                    nm = "%s.%d" % (v.name, p[1])
+                    if re.fullmatch(r"(std::vec::)?Vec<u8>", fty):
+                        v.fields[p[1]] = VecU8(())
+                    elif fty in INT_TYPES or fty in ("bool", "f64"):
+                        v.fields[p[1]] = self.sym(fty, nm)
+                    elif type_base(fty) in self.enums:
+                        v.fields[p[1]] = self.sym(fty, nm)
+                    else:
+                        v.fields[p[1]] = Lazy(fty, nm)
+                return v.fields[p[1]]
             if isinstance(v, Opaque):
                 return Opaque(p[2], v.tag + ".%d" % p[1])
             raise Unsupported("field of %r" % (v,))
+        if p[0] == "vecidx":
+            if isinstance(v, VecU8) and 0 <= p[1] < len(v.items):
+                return v.items[p[1]]
+            raise Unsupported("vecidx of %r" % (v,))
         if p[0] == "downcast":
             if isinstance(v, Enum):
                 return ("variant", v, p[1])
@@ -564,6 +605,18 @@ class Interp:
                 nf.append(UNINIT)
             nf[p[1]] = val if not rest else self.updated(s, fr, nf[p[1]], rest, val)
             return Agg(v.ty, nf)
+        if p[0] == "field" and isinstance(v, Lazy):
+            nf = dict(v.fields)
+            cur = nf.get(p[1], UNINIT)
+            if rest and cur is UNINIT:
+                cur = self.project(s, v, p, fr)
+                nf = dict(v.fields)
+            nf[p[1]] = val if not rest else self.updated(s, fr, cur, rest, val)
+            return Lazy(v.ty, v.name, nf)
+        if p[0] == "vecidx" and isinstance(v, VecU8) and not rest:
+            it = list(v.items)
+            it[p[1]] = val
+            return VecU8(it)
         if p[0] == "field" and v is UNINIT:
             nf = [UNINIT] * (p[1] + 1)
             nf[p[1]] = val if not rest else self.updated(s, fr, UNINIT, rest, val)
@@ -917,7 +970,9 @@ class Interp:
             rv = fr.post(rv)
         s.frames.pop()
         if not s.frames:
-            self.outcomes.append(Outcome("return", s.pc, value=rv))
+            o = Outcome("return", s.pc, value=rv)
+            o.locals = dict(fr.locals)      # the entry frame's final state (referents of &mut arguments live here)
+            self.outcomes.append(o)
             raise PathEnd()
         caller = s.frames[-1]
         if fr.dest is not None:
@@ -1543,6 +1598,82 @@ def _ref_eq(I, s, fr, callee, args, dty, work, at):
     return ("INLINE", cands[0], [a, b], None)
 
 
+def _deref_val(I, s, v):
+    if isinstance(v, Ref):
+        f2 = I.frame_by_id(s, v.frame)
+        return I.load_raw(s, f2, v.local, list(v.proj))
+    return v
+
+
+def _vec_u8(I, s, fr, callee, args, dty, work, at):
+    """Vec<u8> / [u8] operations on the concrete-length model"""
+    meth = re.search(r"::(\w+)(?:::<.*>)?$", callee).group(1)
+    r = args[0]
+    v = _deref_val(I, s, r)
+    if isinstance(v, Ref):
+        r = v
+        v = _deref_val(I, s, v)
+    if not isinstance(v, VecU8):
+        raise Unsupported("%s on %r" % (callee[:50], v))
+    I.models_used.add("Vec<u8>::%s (concrete length, symbolic elements)" % meth)
+    if meth == "push":
+        if not isinstance(r, Ref) or not isinstance(args[1], Scalar):
+            raise Unsupported("Vec::push target/argument")
+        f2 = I.frame_by_id(s, r.frame)
+        newv = VecU8(v.items + (args[1],))
+        if r.proj:
+            f2.locals[r.local] = I.updated(s, f2, f2.locals.get(r.local, UNINIT), list(r.proj), newv)
+        else:
+            f2.locals[r.local] = newv
+        return Agg("()", [])
+    if meth == "len":
+        return Scalar(bv(64, len(v.items)), "usize")
+    if meth == "is_empty":
+        return Scalar(z3.BoolVal(len(v.items) == 0), "bool")
+    if meth == "deref" or meth == "deref_mut" or meth == "as_slice":
+        return r
+    if meth in ("last", "last_mut", "first"):
+        if not v.items:
+            return Enum(dty, bv(64, 0), {})
+        k = len(v.items) - 1 if meth != "first" else 0
+        if not isinstance(r, Ref):
+            raise Unsupported("slice::last on a non-reference")
+        return Enum(dty, bv(64, 1), {"Some": {0: Ref(r.frame, r.local, tuple(r.proj) + (("vecidx", k),), mut=(meth == "last_mut"))}})
+    raise Unsupported("Vec<u8> method " + meth)
+
+
+def _unwrap(I, s, fr, callee, args, dty, work, at):
+    """Option::unwrap / Result::unwrap / expect: the payload, or a panic outcome"""
+    e = args[0]
+    if not isinstance(e, Enum):
+        raise Unsupported("unwrap of %r" % (e,))
+    is_opt = "Option" in callee
+    good = (e.discr == 1) if is_opt else (e.discr == 0)
+    var = "Some" if is_opt else "Ok"
+    if I.feasible(s.pc, z3.Not(good)):
+        I.outcomes.append(Outcome("panic", s.pc + [z3.Not(good)], msg="called `%s::unwrap()` on a `%s` value" % ("Option" if is_opt else "Result", "None" if is_opt else "Err"),
+                                  where=fr.fn.short + " " + fr.bb))
+    s.pc.append(good)
+    if not I.feasible(s.pc):
+        return DIVERGE
+    pl = e.payload.get(var, {})
+    if 0 not in pl:
+        inner = re.search(r"<(.*)>", dty or "")
+        pl[0] = I.sym(dty, "unwrap%d" % I.fresh_n)
+        I.fresh_n += 1
+    return pl[0]
+
+
+def _unwrap_or(I, s, fr, callee, args, dty, work, at):
+    e, d = args[0], args[1]
+    if not isinstance(e, Enum) or not isinstance(d, Scalar):
+        raise Unsupported("unwrap_or")
+    pl = e.payload.setdefault("Some", {})
+    if 0 not in pl:
+        pl[0] = I.sym(d.ty, "some%d" % e.uid)
+    return Scalar(z3.If(e.discr == 1, pl[0].t, d.t), d.ty)
+
+
 def _ord_method(name):
     """PartialOrd::{lt,le,gt,ge} / PartialEq::ne default (provided) methods on crate types: run the type's own
     partial_cmp / eq from the MIR dump, then apply core's definition of the provided method."""
@@ -1582,6 +1713,9 @@ STD_MODELS = {
     r"^<(?!f64|f32|i8|i16|i32|i64|u8|u16|u32|u64|usize|isize|bool|char)[\w:]+ as PartialOrd>::ge$": _ord_method("ge"),
     r"^<(?!f64|f32|i8|i16|i32|i64|u8|u16|u32|u64|usize|isize|bool|char)[\w:]+ as PartialEq>::ne$": _ord_method("ne"),
     r"^<&.+ as PartialEq>::(eq|ne)$": _ref_eq,
+    r"^Vec::<u8>::(push|len|is_empty)$|^<Vec<u8> as (std::ops::)?Deref(Mut)?>::deref(_mut)?$|^core::slice::<impl \[u8\]>::(last|last_mut|first|len|is_empty)$": _vec_u8,
+    r"^Option::<.*>::unwrap$|^Result::<.*>::unwrap$|^Option::<.*>::expect$": _unwrap,
+    r"^Option::<(u8|u16|u32|u64|usize|i32|i64)>::unwrap_or$": _unwrap_or,
     r"^<\w+ as TryFrom<\w+>>::try_from$|^<\w+ as TryInto<\w+>>::try_into$": _try_from_int,
     r"^Result::<.*>::ok$": _result_ok,
     r"as (?:std::ops::)?Try>::branch$": _try_branch,
